@@ -100,7 +100,7 @@ namespace bloch::runtime {
                              "rotation angle must be a finite number");
         }
     }
-    static Value::Type declaredKind(Type* t) {
+    static Value::Type plainDeclaredKind(Type* t) {
         if (auto prim = dynamic_cast<PrimitiveType*>(t)) {
             if (prim->name == "long")
                 return Value::Type::Long;
@@ -116,7 +116,7 @@ namespace bloch::runtime {
         return Value::Type::Void;
     }
 
-    static std::string declaredClassName(Type* t) {
+    static std::string plainDeclaredClassName(Type* t) {
         if (auto named = dynamic_cast<NamedType*>(t)) {
             if (named->typeArguments.empty() && !named->nameParts.empty())
                 return named->nameParts.back();
@@ -671,10 +671,52 @@ namespace bloch::runtime {
         }
         // a null stored in a declared slot has that slot's static class too
         if (v.type == Value::Type::Object && !v.objectValue && !declaredClass.empty() &&
-            findClass(declaredClass)) {
-            v.className = declaredClass;
+            (findClass(declaredClass) || declaredClass.find('<') != std::string::npos)) {
+            v.className = declaredClass;  // (a specialisation may not have been instantiated yet)
         }
         return v;
+    }
+
+    // Declared types are read in the class the code belongs to: inside Box<long>, a slot declared
+    // 'T' is a long slot, and a slot declared 'Box<T>' has the static class Box<long>.
+    RuntimeTypeInfo RuntimeEvaluator::declaredTypeHere(Type* t) {
+        std::unordered_map<std::string, RuntimeTypeInfo> subst;
+        if (m_currentClassCtx) {
+            for (size_t i = 0; i < m_currentClassCtx->typeParamNames.size() &&
+                               i < m_currentClassCtx->typeArgs.size();
+                 ++i)
+                subst[m_currentClassCtx->typeParamNames[i]] = m_currentClassCtx->typeArgs[i];
+        }
+        RuntimeTypeInfo info = typeInfoFromAst(t, subst);
+        if (info.kind == Value::Type::Object && !info.typeArgs.empty() &&
+            !findClass(info.className)) {
+            if (auto named = dynamic_cast<NamedType*>(t))
+                (void)instantiateGeneric(named, subst);
+        }
+        return info;
+    }
+
+    Value::Type RuntimeEvaluator::declaredKind(Type* t) {
+        bool mentionsTypeParam = m_currentClassCtx && !m_currentClassCtx->typeParamNames.empty();
+        if (!mentionsTypeParam)
+            return plainDeclaredKind(t);
+        RuntimeTypeInfo info = declaredTypeHere(t);
+        if (info.kind == Value::Type::Long || info.kind == Value::Type::LongArray ||
+            info.kind == Value::Type::FloatArray)
+            return info.kind;
+        return Value::Type::Void;
+    }
+
+    std::string RuntimeEvaluator::declaredClassName(Type* t) {
+        auto named = dynamic_cast<NamedType*>(t);
+        if (!named)
+            return {};
+        bool generic = !named->typeArguments.empty() ||
+                       (m_currentClassCtx && !m_currentClassCtx->typeParamNames.empty());
+        if (!generic)
+            return plainDeclaredClassName(t);
+        RuntimeTypeInfo info = declaredTypeHere(t);
+        return info.kind == Value::Type::Object ? info.className : std::string{};
     }
 
     // The analyser resolves an overload among the members the call site may use; the run-time
